@@ -8,6 +8,8 @@ import (
 	"flag"
 	"fmt"
 	"os"
+	"runtime/pprof"
+	"time"
 
 	"qv/internal/hx"
 )
@@ -43,6 +45,29 @@ func main() {
 	}
 	if err := os.MkdirAll(*out, 0o755); err != nil {
 		panic(err)
+	}
+	// QV_CPUPROFILE=file[:seconds]: profile the harness for that long (default 120 s), write the profile and exit
+	if v := os.Getenv("QV_CPUPROFILE"); v != "" {
+		secs := 120
+		name := v
+		if i := len(v) - 1; i > 0 {
+			for j := i; j >= 0; j-- {
+				if v[j] == ':' {
+					fmt.Sscanf(v[j+1:], "%d", &secs)
+					name = v[:j]
+					break
+				}
+			}
+		}
+		if pf, err := os.Create(name); err == nil {
+			pprof.StartCPUProfile(pf)
+			go func() {
+				time.Sleep(time.Duration(secs) * time.Second)
+				pprof.StopCPUProfile()
+				pf.Close()
+				os.Exit(0)
+			}()
+		}
 	}
 	res := hx.NewResult(id, *seed, *tier)
 	f(res, hx.NewRng(*seed), *tier, *out)
